@@ -259,6 +259,30 @@ def main(path):
   env = spec.get("env") or {}
   variants = env.get("variants") or [{}]
   sentinels = env.get("sentinels") or {}
+  if spec["kind"] == "order":
+    # two threads of one launch, executed in both serial orders from the same state; any difference = order dependence
+    t1, t2 = env["tids"]
+    finals = []
+    for order in ((t1, t2), (t2, t1)):
+      vals, arrays = build_arrays(json.loads(json.dumps(spec["args"])), specs)
+      for t in order:
+        tt = list(t)[:ndim] + [0] * max(0, ndim - len(t))
+        wp.launch(st, dim=1, inputs=vals + [int(x) for x in tt], device="cpu")
+        wp.synchronize()
+      finals.append({k: v.numpy().copy() for k, v in arrays.items()})
+    diffs = []
+    for k in finals[0]:
+      a, b = finals[0][k], finals[1][k]
+      if a.dtype.kind == "f":
+        if not np.allclose(a, b, rtol=1e-4, atol=1e-6, equal_nan=True):
+          diffs.append(k)
+      elif not np.array_equal(a, b):
+        diffs.append(k)
+    if diffs:
+      print(f"REPRODUCED: threads {t1} and {t2} executed in the two serial orders give different {diffs}")
+      return 0
+    print(f"NOT-REPRODUCED: both serial orders of threads {t1}, {t2} give identical arrays")
+    return 3
   ntrials = int(env.get("randomize_floats") or 0) + 1
   rng = np.random.default_rng(12345)
   last = None
